@@ -545,6 +545,7 @@ func main() {
 	def("metricNameRE", "String", leanStr(ms["metricNameRE"]))
 	def("labelNameRE", "String", leanStr(ms["labelNameRE"]))
 	def("defaultQuantiles", "List (String × String)", quantLits(mapperF))
+	def("minSummaryStreamDuration", "String", leanStr(pkgConstExprs(mapperF)["minSummaryStreamDuration"]))
 	fs := pkgStrings(fsmF)
 	def("templateReplaceCaptureRE", "String", leanStr(fs["templateReplaceCaptureRE"]))
 	// relay.go / event.go / exporter.go: capacities and periods
